@@ -845,6 +845,9 @@ type writePrepareFrame struct {
 }
 
 func (w *writePrepareFrame) buildFrame(f *framer, streamID int) error {
+	if err := f.checkCustomPayload(w.customPayload); err != nil {
+		return err
+	}
 	if len(w.customPayload) > 0 {
 		f.payload()
 	}
@@ -1585,6 +1588,9 @@ func (f *framer) writeQueryFrame(streamID int, statement string, params *queryPa
 	if err := checkValueCount(len(params.values)); err != nil {
 		return err
 	}
+	if err := f.checkCustomPayload(customPayload); err != nil {
+		return err
+	}
 	if len(customPayload) > 0 {
 		f.payload()
 	}
@@ -1633,6 +1639,9 @@ func (e *writeExecuteFrame) buildFrame(fr *framer, streamID int) error {
 
 func (f *framer) writeExecuteFrame(streamID int, preparedID []byte, params *queryParams, customPayload *map[string][]byte) error {
 	if err := checkValueCount(len(params.values)); err != nil {
+		return err
+	}
+	if err := f.checkCustomPayload(*customPayload); err != nil {
 		return err
 	}
 	if len(*customPayload) > 0 {
@@ -1693,6 +1702,9 @@ func (f *framer) writeBatchFrame(streamID int, w *writeBatchFrame, customPayload
 		if err := checkValueCount(len(w.statements[i].values)); err != nil {
 			return err
 		}
+	}
+	if err := f.checkCustomPayload(customPayload); err != nil {
+		return err
 	}
 	if len(customPayload) > 0 {
 		f.payload()
@@ -2022,6 +2034,17 @@ func appendLong(p []byte, n int64) []byte {
 		byte(n>>8),
 		byte(n),
 	)
+}
+
+// checkCustomPayload reports an error if a custom payload is to be sent with a
+// protocol version that has none. Frame builders call it before anything is
+// written, so that the request fails cleanly instead of panicking half-way
+// (which left the call registered and its stream reserved forever).
+func (f *framer) checkCustomPayload(customPayload map[string][]byte) error {
+	if len(customPayload) > 0 && f.proto < protoVersion4 {
+		return fmt.Errorf("gocql: custom payload is not supported with protocol version %d, it needs version 4 or higher", f.proto)
+	}
+	return nil
 }
 
 func (f *framer) writeCustomPayload(customPayload *map[string][]byte) {
